@@ -1804,3 +1804,93 @@ spec('C10', correspond=c10_correspond, replay=generic_replay, modules=['C10'],
      trusted=['Display for i64 / char and str::parse::<i64> as modelled', 'the reader and printer models are tied to read/mod.rs and print/mod.rs by differential execution', 'the correspondence check'],
      assumptions=['data: 64-bit integers, characters, readable symbol names (ReadableSym), strings, proper lists nested below the depth limit',
                   'generated symbols print as #<symbol-0x…>, which is not readable: outside the domain of the property'])
+
+
+# ================================================================================================ C20
+
+ILL_FORMED_KINDS = ('wrong-number-of-arguments', 'unbound-symbol', 'ambiguous-name', 'eval-bad-operator', 'wrong-argument-type', 'stackoverflow', 'param-is-not-symbol',
+                    'missing-rest-parameter', 'multiple-rest-parameters', 'wrong-plist-format')
+
+def c20_programs(rng, n):
+    fixed = ["(add 1 2)", "((lambda (x y) (add x y)) 1 2)", "((lambda (x & r) (cons x r)) 1 2 3)", "(if (< 1 2) 'yes 'no)", "(let (a 1 b 2) (add a b))", "(when t (block (output \"side\") 5))",
+             "(map (lambda (x) (multiply x x)) (range 4))", "(foldl add 0 '(1 2 3))", "(eval (trap (car 5) (list 'caught (. *trapped-signal* 'kind))))", "(try (throw 'kind 'k1 'source 's) (catch k1 (lambda (e) 'handled)))",
+             "(and 1 (or nil 2))", "(case ((= 1 2) 'a) ((= 1 1) 'b) (t 'c))", "(eval '(add 1 2))", "(quote (a b c))", "((lambda (f) (f (f 1))) (lambda (x) (add x 10)))", "'()", "5", "%a", "\"str\"",
+             "(reverse '(1 2 3))", "(length (append '(1 2) '(3)))", "(not nil)", "(block (output \"a\") (output \"b\") 3)", "(signal '(kind custom source here))", "(abort)",
+             "((lambda (x y) (add x y)) 1)", "(if 1 2)", "undefined-sym", "(car 5)"]
+    progs = list(fixed)
+    for _ in range(n):
+        g = Gen(rng, ALL - {'globals', 'gensym'}, fault_rate=rng.choice([0.0, 0.0, 0.0, 0.15]), max_depth=rng.choice([2, 3, 4]))
+        progs.append(g.expr(rng.choice(['int', 'int', 'list', 'bool']), [], 0))
+    return progs
+
+def c20_correspond(run, rng, tier):
+    progs = c20_programs(rng, 150 if tier == 'quick' else 3000)
+    sessions, meta = [], []
+    for p in progs:
+        for mode in ('detached', 'all-in', 'all-over', 'random'):
+            if mode == 'detached':
+                s = ['new debugger']
+            else:
+                script = {'all-in': f'command {hexs("STEP-IN")} 4000000000 200000', 'all-over': f'command {hexs("STEP-OVER")} 4000000000 200000',
+                          'random': f'commandrand {rng.randrange(1 << 30)} 4000000000 200000'}[mode]
+                s = ['new debugger umbilical', script]
+            s += ['evalstop ' + hexs(f"(debug-eval (quote {p}) nil nil)")]
+            sessions.append(s)
+            meta.append((p, mode))
+        sessions.append(['new debugger', 'evalstop ' + hexs(p)])
+        meta.append((p, 'direct'))
+    real, model = both(sessions, timeout=600)
+    # the stream of debugger messages is part of the comparison with the model; the property itself is about value/signal/output
+    diffs = compare(sessions, real, model)
+    failures = crash_failures(sessions, real)
+    findings_seen = set()
+    dist = {}
+    by_prog = {}
+    for (p, mode), r in zip(meta, real):
+        res, tr = parse_eval(r[-1] if r else '')
+        last = res[-1] if res else None
+        out = (last[0], re.sub(r'0x[0-9a-f]+', '0x?', last[1]) if last else None, re.sub(r'0x[0-9a-f]+', '0x?', (tr or {}).get('out') or '')) if last else None
+        by_prog.setdefault(p, {})[mode] = out
+    for p, outs in by_prog.items():
+        direct = outs.get('direct')
+        kind = direct[0] if direct else 'none'
+        dist[kind] = dist.get(kind, 0) + 1
+        for mode in ('detached', 'all-in', 'all-over', 'random'):
+            if outs.get(mode) != direct:
+                f = {'expression': p, 'mode': mode, 'direct_eval': str(direct)[:300], 'debug_eval': str(outs.get(mode))[:300],
+                     'problem': 'the stepping evaluator and the evaluator disagree on value / signal / output'}
+                if direct and direct[0] == 'sig' and any(k in direct[1] for k in ILL_FORMED_KINDS) or (outs.get(mode) and outs[mode][0] == 'sig' and 'stackoverflow' in (outs[mode][1] or '')):
+                    f['finding'] = 'F22-debugger-on-ill-formed-programs'
+                    findings_seen.add('F22-debugger-on-ill-formed-programs')
+                failures.append(f)
+                break
+    return {'evaluations': len(sessions), 'distinct_nontrivial': len(set(progs)),
+            'rule': 'programs over special forms, closures, rest parameters, prelude macros, traps, try/catch, output — each run through (debug-eval (quote P) nil nil) detached and attached with answers all STEP-IN / all STEP-OVER / random '
+                    '(scripted through hook H3, consumed exactly when the evaluator blocks in receive) and evaluated directly; value or signal and output compared between the five runs on the real interpreter (the oracle) '
+                    'and every run, including the stream of debugger messages, compared with the model evaluator interpreting the real debugger.lisp',
+            'samples': progs[:2] + progs[30:32], 'disagreements': diffs, 'oracle_failures': failures, 'distribution': dist, 'findings_seen': findings_seen}
+
+spec('C20', correspond=c20_correspond, replay=generic_replay, modules=['C20'],
+     search=lambda run, rng, d: c20_correspond(run, random.Random(rng.random()), 'quick')['oracle_failures'],
+     trusted=['the evaluator model is tied to eval/mod.rs by differential execution', 'debugger.lisp is interpreted by the model evaluator (not re-modelled)', 'the correspondence check (hook H3 answers `receive`)'],
+     assumptions=['partial: the agreement of debug-eval with eval is established by differential execution (real and model), the theorems cover the natives the stepping evaluator is built from and the detached case',
+                  'known finding F22: on ill-formed programs and near the depth limit the stepping evaluator raises different signals'])
+
+
+# ================================================================================================ C01 / C03 / C04 registration
+
+HEAP_MODULES = ['HeapMark', 'HeapSweep', 'HeapCollect']
+
+spec('C01', correspond=lambda run, rng, tier: c01_correspond(run, rng, tier, which='C01'), replay=heap_replay, modules=HEAP_MODULES + ['C01'],
+     search=lambda run, rng, d: c01_correspond(run, random.Random(rng.random()), 'quick')['oracle_failures'],
+     trusted=HEAP_TRUST, assumptions=['Drop order of Memory\'s fields and the evaluator\'s use of handles are Rust-level facts: exercised (poisoned swept cells, handle audit), not proved',
+                                      'the mark loop of the source revisits shared nodes once per path (exponential on DAGs such as x = (cons x x)): an observation about time, not about safety'])
+
+spec('C03', correspond=lambda run, rng, tier: c01_correspond(run, rng, tier, which='C03'), replay=heap_replay, modules=HEAP_MODULES + ['C01', 'C03'],
+     search=lambda run, rng, d: c01_correspond(run, random.Random(rng.random()), 'quick', which='C03')['oracle_failures'],
+     trusted=HEAP_TRUST, assumptions=['"when no evaluation is in progress the only live handles are the global definitions and the embedder\'s" is a fact about Rust RAII in the evaluator: checked by the handle audit after every top-level evaluation, not proved',
+                                      'f32 ratio arithmetic is modelled by exact rationals (equal below 5.5M cells)'])
+
+spec('C04', correspond=lambda run, rng, tier: c01_correspond(run, rng, tier, symbol_heavy=True, which='C04'), replay=heap_replay, modules=HEAP_MODULES + ['C01', 'C04'],
+     search=lambda run, rng, d: c01_correspond(run, random.Random(rng.random()), 'quick', symbol_heavy=True)['oracle_failures'],
+     trusted=HEAP_TRUST, assumptions=['symbols compare by the address of their cell (Symbol::eq); a global is keyed by the printed name of its symbol, so a generated symbol used as a global name is keyed by its address text (observation)'])
